@@ -166,7 +166,7 @@ blobs = pickle.load(open(sys.argv[2], 'rb'))
 for key, blob in blobs:
     try:
         o = pickle.loads(blob)
-        units = {k: str(v) for k, v in dict(o._units).items()}
+        units = {k: str(v) for k, v in dict(getattr(o, '_units', o)).items()}
         m = getattr(o, '_magnitude', None)
         if hasattr(m, 'nominal_value'):
             mr = ['ufloat', m.nominal_value, m.std_dev]
@@ -174,13 +174,28 @@ for key, blob in blobs:
             mr = ['ndarray', m.tolist()]
         else:
             mr = [type(m).__name__, str(m)]
-        same_reg = o._REGISTRY is pint.application_registry.get()
+        same_reg = getattr(o, '_REGISTRY', pint.application_registry.get()) is pint.application_registry.get()
         usable = None
         try:
-            usable = str((1 * pint.Unit(o._units)).to_root_units().magnitude) if key[0] != 'skip' else None
+            usable = str((1 * pint.Unit(getattr(o, '_units', o))).to_root_units().magnitude) if key[0] != 'skip' else None
         except Exception as e:
             usable = 'EXC ' + type(e).__name__
-        out.append([key, 'ok', type(o).__name__, mr, units, same_reg, usable])
+        # ... and equal, as a key too, to the same thing built here from its spelling
+        eq = []
+        try:
+            fresh = pint.Unit(key[1])
+            mine = o if type(o).__name__ == 'UnitsContainer' else (o if type(o).__name__ == 'Unit' else o.units)
+            ref = fresh._units if type(o).__name__ == 'UnitsContainer' else fresh
+            if not (mine == ref): eq.append('loaded == built-here is False')
+            if not (ref == mine): eq.append('built-here == loaded is False')
+            if mine != ref: eq.append('loaded != built-here is True')
+            if hash(mine) != hash(ref): eq.append('hash differs')
+            if ref not in {mine: 1}: eq.append('not found as a dict key')
+            if type(o).__name__ == 'Quantity' and type(m) is int:
+                if hash(o) != hash(pint.Quantity(m, fresh)): eq.append('quantity hash differs')
+        except Exception as e:
+            eq.append('EXC ' + type(e).__name__ + ': ' + str(e)[:60])
+        out.append([key, 'ok', type(o).__name__, mr, units, same_reg, usable, eq])
     except Exception as e:
         out.append([key, 'exc', type(e).__name__ + ': ' + str(e)[:80]])
 json.dump(out, open(sys.argv[3], 'w'))
@@ -199,7 +214,18 @@ def run_fresh(acc):
             for mk, m in mags.items():
                 items[f"Quantity[{mk}]"] = ureg.Quantity(copy.deepcopy(m), u)
             for kind, obj in items.items():
-                key = [kind, ustr, p]
+                key = [kind, ustr, p, "new"]
+                blobs.append((key, pickle.dumps(obj, p)))
+                expect[json.dumps(key)] = obj
+            # the same objects after ordinary use here (compared, hashed, used as keys, converted): whatever they memoised
+            # in THIS interpreter must not travel
+            used = {"Unit": ureg.Unit(ustr), "UnitsContainer": ureg.Unit(ustr)._units, "Quantity[int]": ureg.Quantity(3, ustr), "Measurement": ureg.Measurement(2.0, 0.5, ustr)}
+            for kind, obj in used.items():
+                uobj = obj if kind == "UnitsContainer" else (obj if kind == "Unit" else obj.units)
+                call(lambda: (uobj == ureg.Unit(ustr), hash(uobj), {uobj: 1}, obj == obj))
+                if kind.startswith("Quantity") or kind == "Measurement":
+                    call(lambda: obj.to_root_units())
+                key = [kind, ustr, p, "used"]
                 blobs.append((key, pickle.dumps(obj, p)))
                 expect[json.dumps(key)] = obj
     scratch = os.environ.get("VERIF_SCRATCH") or "/dev/shm"
@@ -209,7 +235,7 @@ def run_fresh(acc):
     with open(fpy, "w") as fh:
         fh.write(CHILD)
     env = dict(os.environ)
-    env["PYTHONHASHSEED"] = "0"
+    env["PYTHONHASHSEED"] = str((int(os.environ.get("PYTHONHASHSEED", "0") or 0) + 4242) % 4294967295 or 1)  # a salt other than this interpreter's
     r = subprocess.run([sys.executable, "-W", "ignore", fpy, core.REPO, fin, fout], capture_output=True, text=True, env=env, timeout=600)
     if r.returncode != 0:
         acc.violation(["fresh-interpreter", "unpickle", "child-process-failed", ""], {"stderr": r.stderr[-400:]}, "exit 0", r.returncode)
@@ -225,12 +251,14 @@ def run_fresh(acc):
         obj = expect[json.dumps(key)]
         acc.ev()
         acc.nt(("fresh", tuple(key)))
-        case = {"object": key[0], "units": key[1], "protocol": key[2]}
+        case = {"object": key[0], "units": key[1], "protocol": key[2], "before-pickling": key[3]}
         if row[1] != "ok":
             acc.violation(["fresh-interpreter", key[0].split("[")[0], "unpickling-raises", "prefixed" if ("kilo" in key[1] or "micro" in key[1] or "mega" in key[1]) else "plain"], case, "an equal object attached to the application registry", row[2])
             continue
-        _, _, tname, mr, units, same_reg, usable = row
-        want_units = {k: str(v) for k, v in dict(obj._units).items()}
+        _, _, tname, mr, units, same_reg, usable, eqs = row
+        if eqs:
+            acc.violation(["fresh-interpreter", key[0].split("[")[0], "loaded-object-not-equal-to-the-same-thing-built-in-that-interpreter", key[3]], case, "equal, same hash, found as a key", eqs)
+        want_units = {k: str(v) for k, v in dict(getattr(obj, "_units", obj)).items()}
         if units != want_units:
             acc.violation(["fresh-interpreter", key[0].split("[")[0], "units-differ", ""], case, want_units, units)
         if not same_reg:
